@@ -301,10 +301,13 @@ theorem api_tree_value_bool (d : Dialect) (g : Grammar) (hg : coreCompat g = tru
     rw [h1, evalG_render env d e hcw.1]
     exact (build_bool_eval env d u e hu hn hb).1
 
-/-- the same for numeric trees (value, NULL included) -/
+/-- the same for numeric trees (value, NULL included): arithmetic, scalar subqueries (an
+    abstract value per row), `cast` (the value of the dialect's CAST to the rendered type name is
+    abstract: `Abs.castF`), `func.coalesce`, searched and simple `case` — whose conditions are
+    boolean trees of the fragment -/
 theorem api_tree_value_num (d : Dialect) (g : Grammar) (hg : coreCompat g = true)
     (hpt : prefixNoTern g) (env : String → Val) (u : U) (e : SaExpr)
-    (hu : NumU u = true) (hb : build u = some e) :
+    (hu : NumU u = true) (hn : noIsGen u = true) (hb : build u = some e) :
     (parse g (render d true e).print).map (fun t => (evalG (stdI env) t).scalar)
       = some (evalNumU env d u) := by
   have hcw := build_core_WG u e (Or.inl hu) hb
@@ -316,7 +319,7 @@ theorem api_tree_value_num (d : Dialect) (g : Grammar) (hg : coreCompat g = true
     rw [hp] at h1
     simp only [Option.map_some, Option.some.injEq] at h1 ⊢
     rw [h1, evalG_render env d e hcw.1]
-    exact build_num_eval env d u e hu hb
+    exact build_num_eval env d u e hu hn hb
 
 /-- the same statement about `emit` (= `render ∘ lower`, the compiler's full pipeline including
     the compile-time rewriting of the LIKE-based string operators, which is the identity on
@@ -343,6 +346,31 @@ example : BoolU (.not_ (.and_ [.bin .eq (.col "a" .int) (.li 1),
             .not_ (.bin .is_ (.neg (.col "a" .int)) .null)],
       .and_ [.bin .ge (.bin .mod (.col "a" .int) (.li 3)) (.li 0)]])) = true := by
   decide
+
+/-- non-vacuity for the bracket constructs: a searched CASE whose conditions are boolean trees
+    and whose results are a COALESCE, a CAST of a scalar subquery, a simple CASE — in the
+    fragment, free of `is_` between general operands, and builds -/
+def bracketTree : U :=
+  .case_ .absent
+    [.bin .gt (.col "a" .int) (.li 0), .coalesce [.col "b" .int, .bin .add (.col "a" .int) (.li 7)],
+     .not_ (.bin .eq (.col "b" .int) .null), .cast .int (.subq "q" .num),
+     .or_ [.bin .lt (.col "a" .int) (.li 5), .bin .is_ (.col "b" .int) .null],
+       .case_ (.col "a" .int) [.li 1, .li 10, .bin .add (.li 1) (.li 1), .neg (.col "b" .int)] .absent]
+    (.neg (.col "a" .int))
+
+example : NumU bracketTree = true ∧ noIsGen bracketTree = true ∧ (build bracketTree).isSome = true := by
+  decide +kernel
+
+/-- … and the meaning is the expected one (every column and the subquery holding the same
+    value, CAST interpreted as the identity): 3 gives COALESCE(3, 3 + 7) = 3 by the first
+    branch, -4 gives the CAST of the subquery by the second, NULL reaches the third branch
+    (`b IS NULL`) whose simple CASE matches nothing and has no ELSE: NULL -/
+example : @evalNumU ⟨fun _ _ => .null, fun _ v => v⟩ (fun _ => .int 3) .sqlite bracketTree = .int 3 := by
+  decide +kernel
+example : @evalNumU ⟨fun _ _ => .null, fun _ v => v⟩ (fun _ => .int (-4)) .sqlite bracketTree = .int (-4) := by
+  decide +kernel
+example : @evalNumU ⟨fun _ _ => .null, fun _ v => v⟩ (fun _ => .null) .sqlite bracketTree = .null := by
+  decide +kernel
 
 /-- the constructors establish the hypothesis `WG` (and stay in the fragment):
     `BinaryExpression.__init__`, `UnaryExpression.__init__`, `_construct_for_list` -/
